@@ -58,6 +58,20 @@ class LibMap:
         ct0 = self.mapped(em, a0)
         if ct0 is None:
             return None
+        if self.is_rev_iter(em, a0):
+            # std::reverse_iterator is represented by its base() pointer
+            x = em.paren(em.E(a0))
+            if op == "++":
+                return "%s--" % x if len(args) == 2 else "--%s" % x
+            if op == "--":
+                return "%s++" % x if len(args) == 2 else "++%s" % x
+            if op == "*" and len(args) == 1:
+                return "(*(%s - 1))" % x
+            if op == "->":
+                return "(%s - 1)" % x
+            if op in ("==", "!=", "=") and len(args) == 2 and self.is_rev_iter(em, args[1]):
+                return "%s %s %s" % (x, op, em.paren(em.E(args[1])))
+            return None
         if ct0.startswith("struct vf_seq_"):
             tag = ct0[len("struct vf_seq_"):]
             if op == "[]":
@@ -98,8 +112,21 @@ class LibMap:
         if ct0.startswith("struct vf_fn"):
             if op == "()":
                 f = em.paren(em.E(a0))
-                return self.fn_call(em, n, f, args[1:])
+                return self.fn_call(em, n, f, args[1:], fnt)
             if op == "=":
+                src = skip(args[1])
+                while src.get("kind") in ("CXXConstructExpr", "CXXFunctionalCastExpr") and len(src.get("inner", [])) == 1:
+                    src = skip(src["inner"][0])
+                if src.get("kind") == "LambdaExpr":  # stored closure: its captures must outlive the block
+                    return "%s = %s" % (em.paren(em.E(a0)), em.lift_lambda(src, heap=True))
+                sct = self.mapped(em, args[1])
+                if src.get("kind") in ("CXXNullPtrLiteralExpr", "GNUNullExpr") or sct == "void*":
+                    return "%s = ((struct vf_fn){0})" % em.paren(em.E(a0))  # f = nullptr
+                if sct != "struct vf_fn":
+                    v = self.to_vf_fn(em, args[1])  # f = lambda / function pointer
+                    if v is None:
+                        return None
+                    return "%s = %s" % (em.paren(em.E(a0)), v)
                 return "%s = %s" % (em.paren(em.E(a0)), em.E(args[1]))
             return None
         if ct0.startswith("struct vf_map_") and op == "[]":
@@ -107,6 +134,9 @@ class LibMap:
             return "(*vf_map_%s_index(%s, %s))" % (tag, em.addr_of(a0), em.E(args[1]))
         if ct0.startswith("struct vf_pair_") and op == "=":
             return "%s = %s" % (em.paren(em.E(a0)), em.E(args[1]))
+        if self.is_ilist_iter(em, a0) and len(args) == 1 and op in ("*", "->"):
+            # iterator of an intrusive list = pointer into the array of element pointers
+            return "(**%s)" % em.paren(em.E(a0)) if op == "*" else "(*%s)" % em.paren(em.E(a0))
         if is_scalar(ct0) or ct0 == "vf_str":
             # smart pointers, iterators, atomics, string ids: builtin operator on the mapped value
             if op == "->":
@@ -126,6 +156,11 @@ class LibMap:
                 if ct1 is not None and (is_scalar(ct1) or ct1 == "vf_str"):
                     if ct0 == "vf_str" and op in ("+", "+=", "<", ">"):
                         return None
+                    if op in ("==", "!=") and {ct0, ct1} == {"vf_str", "char*"}:
+                        # std::string compared with a C string: content comparison -> compare string ids
+                        x, y = [self.str_fn(em, "vf_str_from_cstr", "vf_str", ["char*"], [em.E(a)])
+                                if c == "char*" else em.paren(em.E(a)) for a, c in ((a0, ct0), (args[1], ct1))]
+                        return "%s %s %s" % (x, op, y)
                     return "%s %s %s" % (em.paren(em.E(a0)), op, em.paren(em.E(args[1])))
             if op == "-" and len(args) == 1:
                 return "-%s" % em.paren(em.E(a0))
@@ -134,8 +169,23 @@ class LibMap:
                 return "%s = %s" % (em.paren(em.E(a0)), em.E(args[1]))
         return None
 
-    def fn_call(self, em, n, f, args):
-        """call of a modelled std::function value f (struct vf_fn {fn, env})"""
+    def fn_call(self, em, n, f, args, fnt=None):
+        """call of a modelled std::function / closure value f (struct vf_fn {fn, env}); the parameter passing
+        convention comes from the signature of its operator() when clang prints one, else from the arguments"""
+        avs, pcs = None, []
+        em.callflag = True  # a callback may raise
+        if fnt:
+            try:
+                params = em.fn_params_from(fnt)
+                pcs = em.param_ctypes_from(fnt)
+                ret, isref = em.ret_ctype_from(fnt)
+                if not isref and len(params) == len(args) == len(pcs):
+                    avs = em.call_args(args, params)
+            except Unsupported:
+                avs = None
+        if avs is not None:
+            cast = "%s (*)(%s)" % (ret, ", ".join(["void*"] + pcs))
+            return "((%s)%s.fn)(%s)" % (cast, f, ", ".join(["%s.env" % f] + avs))
         avs, pcs = [], []
         for a in args:
             r = em.infer_arg(a)
@@ -162,7 +212,16 @@ class LibMap:
         return None
 
     # ------------------------------------------------------------------ member calls
+    def is_rev_iter(self, em, n):
+        try:
+            t = strip_ref(em.tm.resolve(em.ptype(n)))
+        except Unsupported:
+            return False
+        return t.kind == "named" and t.last == "reverse_iterator" and bool(t.args)
+
     def member_call(self, em, n, me, base, name, args):
+        if name == "base" and not args and self.is_rev_iter(em, base):
+            return em.E(base)
         bt = em.ptype(base)
         try:
             ct = em.tm.c(strip_ref(em.tm.resolve(bt)))
@@ -172,10 +231,21 @@ class LibMap:
         if arrow and ct.endswith("*"):
             # method called through a raw pointer to a modelled type
             pointee = ct[:-1]
+        elif ct.endswith("*"):
+            # member of a smart pointer OBJECT (p.get(), p.reset(..)): not a call on the pointed-to model container
+            pointee = "*"
         else:
             pointee = ct
         if pointee.startswith("struct vf_seq_"):
             return self.seq_call(em, n, pointee[len("struct vf_seq_"):], self.obj_ptr(em, base, arrow), name, args)
+        if pointee.startswith("struct vf_ilist_"):
+            return self.ilist_call(em, n, pointee[len("struct vf_ilist_"):], self.obj_ptr(em, base, arrow), name, args)
+        if pointee == "struct vf_ihook":
+            o = em.E(base)
+            o = ("(*%s)" % o) if arrow else em.paren(o)
+            if name == "is_linked":
+                return "%s.linked" % o
+            return None
         if pointee.startswith("struct vf_opt_"):
             o = em.E(base)
             o = ("(*%s)" % o) if arrow else em.paren(o)
@@ -200,12 +270,23 @@ class LibMap:
         if pointee == "vf_str":
             o = em.paren(em.E(base))
             if name in ("c_str", "data"):
-                return "vf_str_cstr(%s)" % o
+                return self.str_fn(em, "vf_str_cstr", "char*", ["vf_str"], [o])
             if name == "empty":
-                return "vf_str_empty(%s)" % o
+                return self.str_fn(em, "vf_str_empty", "_Bool", ["vf_str"], [o])
             if name in ("size", "length"):
-                return "vf_str_size(%s)" % o
-            return None
+                return self.str_fn(em, "vf_str_size", "size_t", ["vf_str"], [o])
+            # any other std::string member function: opaque callee on string ids (needs an assumed contract in the spec)
+            pcs, avs = ["vf_str"], [o]
+            for a in args:
+                r = em.infer_arg(a)
+                if r is None:
+                    return None
+                pcs.append(r[0])
+                avs.append(r[1])
+            cn = "vf_str_" + ident(name)
+            em.note_proto(cn, em.ctype(n), pcs, "std::string::%s" % name)
+            em.callees[cn] = "std::string::%s" % name
+            return "%s(%s)" % (cn, ", ".join(avs))
         # smart pointers / atomics on a non-arrow base whose mapped type is scalar
         if not arrow and is_scalar(ct):
             o = em.E(base)
@@ -238,6 +319,12 @@ class LibMap:
                 return o
         return None
 
+    def str_fn(self, em, cn, ret, pcs, avs):
+        """operation of the opaque string model: an undefined C function (the spec gives it an assumed contract)"""
+        em.note_proto(cn, ret, pcs, "std::string model")
+        em.callees[cn] = "std::string model operation"
+        return "%s(%s)" % (cn, ", ".join(avs))
+
     def seq_call(self, em, n, tag, p, name, args):
         f = "vf_seq_%s_" % tag
         if name in ("size",):
@@ -257,6 +344,10 @@ class LibMap:
             return "%s%s(%s, %s)" % (f, base, p, em.E(args[0]))
         if name in ("pop_front", "pop_back", "clear"):
             return "%s%s(%s)" % (f, name, p)
+        if name in ("rbegin", "crbegin"):  # reverse iterators are represented by their base(): rbegin().base() == end()
+            return "%send(%s)" % (f, p)
+        if name in ("rend", "crend"):
+            return "%sbegin(%s)" % (f, p)
         if name in ("begin", "cbegin"):
             return "%sbegin(%s)" % (f, p)
         if name in ("end", "cend"):
@@ -283,15 +374,43 @@ class LibMap:
             return "%sswap(%s, %s)" % (f, p, em.addr_of(args[0]))
         return None
 
+    def ilist_call(self, em, n, tag, p, name, args):
+        """boost::intrusive::list member functions on the vf_ilist model (elements are passed by reference)"""
+        f = "vf_ilist_%s_" % tag
+        if name == "size":
+            return "%s->n" % em.paren(p) if re.fullmatch(r"&?[\w.>-]+", p) else "%ssize(%s)" % (f, p)
+        if name in ("empty", "clear", "pop_front", "pop_back") and not args:
+            return "%s%s(%s)" % (f, name, p)
+        if name in ("begin", "cbegin", "end", "cend") and not args:
+            return "%s%s(%s)" % (f, name.lstrip("c"), p)
+        if name in ("front", "back") and not args:
+            return "(*%s%s(%s))" % (f, name, p)
+        if name in ("push_back", "push_front", "iterator_to") and len(args) == 1:
+            return "%s%s(%s, %s)" % (f, name, p, em.addr_of(args[0]))
+        if name == "erase" and len(args) == 1:
+            return "%serase(%s, %s)" % (f, p, em.E(args[0]))
+        return None
+
+    def is_ilist_iter(self, em, a):
+        try:
+            t = em.tm.resolve(strip_ref(em.ptype(a)))
+        except Unsupported:
+            return False
+        return t.kind == "named" and t.last == "list_iterator" and (t.name or "").startswith("boost::intrusive::")
+
     def map_call(self, em, n, tag, p, name, args):
         f = "vf_map_%s_" % tag
         if name in ("size", "empty", "clear"):
             return "%s%s(%s)" % (f, name, p)
+        if name == "erase" and len(args) == 1 and self.mapped(em, args[0]) == "struct vf_pair_%s*" % tag:
+            return "%serase_it(%s, %s)" % (f, p, em.E(args[0]))  # erase(iterator): the entry the iterator designates
         if name in ("find", "count", "contains", "erase", "at") and len(args) == 1:
             r = "%s%s(%s, %s)" % (f, name, p, em.E(args[0]))
             return "(*%s)" % r if name == "at" else r
         if name in ("end", "begin", "cend", "cbegin"):
             return "%s%s(%s)" % (f, name.lstrip("c"), p)
+        if name == "insert" and len(args) == 1 and self.mapped(em, args[0]) == "struct vf_pair_" + tag:
+            return "%sinsert_pair(%s, %s)" % (f, p, em.E(args[0]))
         if name in ("insert", "emplace", "try_emplace", "insert_or_assign") and len(args) == 2:
             return "%s%s(%s, %s, %s)" % (f, "insert" if name != "insert_or_assign" else "set", p, em.E(args[0]),
                                          em.E(args[1]))
@@ -338,6 +457,40 @@ class LibMap:
                 if tag in em.tm.seq_insts or True:
                     em.tm.seq_insts.setdefault(tag, ct[:-1])
                     return "vf_seq_%s_%s_in(%s, %s, %s)" % (tag, name, em.E(args[0]), em.E(args[1]), em.E(args[2]))
+        if name in em.ALGO_BODIES and len(args) == 3:
+            r = em.algo_call(n, name, args)
+            if r is not None:
+                return r
+        if name in ("max", "min", "lowest", "epsilon", "infinity") and not args and fnt:
+            # static constants of std::numeric_limits<T> (clang prints no class for the callee: recognised by the
+            # zero-argument noexcept signature returning a builtin arithmetic type)
+            m = re.fullmatch(r"(int|long|unsigned int|unsigned long|double|float) \(\) noexcept", fnt)
+            table = {("int", "max"): "INT_MAX", ("int", "min"): "INT_MIN", ("int", "lowest"): "INT_MIN",
+                     ("long", "max"): "LONG_MAX", ("long", "min"): "LONG_MIN", ("long", "lowest"): "LONG_MIN",
+                     ("unsigned int", "max"): "UINT_MAX", ("unsigned int", "min"): "0U",
+                     ("unsigned long", "max"): "ULONG_MAX", ("unsigned long", "min"): "0UL",
+                     ("double", "max"): "DBL_MAX", ("double", "min"): "DBL_MIN", ("double", "lowest"): "(-DBL_MAX)",
+                     ("double", "epsilon"): "DBL_EPSILON", ("double", "infinity"): "((double)INFINITY)",
+                     ("float", "max"): "FLT_MAX", ("float", "min"): "FLT_MIN", ("float", "lowest"): "(-FLT_MAX)",
+                     ("float", "epsilon"): "FLT_EPSILON", ("float", "infinity"): "INFINITY"}
+            if m and (m.group(1), name) in table:
+                return table[(m.group(1), name)]
+        if name == "intrusive_erase" and len(args) == 2:
+            # simgrid::xbt::intrusive_erase(list, elem) is list.erase(list.iterator_to(elem)) (include/xbt/utility.hpp)
+            ct = self.mapped(em, args[0])
+            if ct and ct.startswith("struct vf_ilist_"):
+                return "%s_erase_elem(%s, %s)" % (ct[len("struct "):], em.addr_of(args[0]), em.addr_of(args[1]))
+        if name in ("next", "prev") and len(args) in (1, 2):
+            ct = self.mapped(em, args[0])
+            if ct and ct.endswith("*"):
+                step = "1" if len(args) == 1 or args[1].get("kind") == "CXXDefaultArgExpr" else em.paren(em.E(args[1]))
+                return "(%s %s %s)" % (em.paren(em.E(args[0])), "+" if name == "next" else "-", step)
+        if name in ("begin", "end", "cbegin", "cend", "size", "empty") and len(args) == 1:
+            ct = self.mapped(em, args[0])
+            if ct and ct.startswith("struct vf_ilist_"):
+                return self.ilist_call(em, n, ct[len("struct vf_ilist_"):], em.addr_of(args[0]), name, [])
+            if ct and ct.startswith("struct vf_seq_"):
+                return self.seq_call(em, n, ct[len("struct vf_seq_"):], em.addr_of(args[0]), name, [])
         if name in ("get_pointer",) and len(args) == 1:
             return em.E(args[0])
         if name in MATH1:
@@ -368,6 +521,8 @@ class LibMap:
         if ct is None:
             return None
         args = [a for a in n.get("inner", [])]
+        while args and args[-1].get("kind") == "CXXDefaultArgExpr":
+            args.pop()  # defaulted trailing parameters (allocators, comparators) carry no modelled meaning
         if ct == "vf_str":
             if not args:
                 return "VF_STR_EMPTY"
@@ -378,10 +533,17 @@ class LibMap:
             core = skip(a0)
             if core.get("kind") == "StringLiteral":
                 return "VF_STRLIT(%s)" % core["value"]
-            return "vf_str_from_cstr(%s)" % em.E(a0)
+            return self.str_fn(em, "vf_str_from_cstr", "vf_str", ["char*"], [em.E(a0)])
         if is_scalar(ct):
             if not args:
                 return "((%s)0)" % ct
+            act = self.mapped(em, args[0])
+            if act and act != ct and act.startswith("struct ") and ct.startswith("struct ") and \
+                    act.endswith("*") and ct.endswith("*") and not act.endswith("**") and not ct.endswith("**"):
+                # converting constructor smart_ptr<Derived> -> smart_ptr<Base>: pointer cast, valid when Base is
+                # reached through first bases only (checked at the end of the extraction, see cxx2c.translate)
+                em.upcasts.add((act[7:-1], ct[7:-1]))
+                return "((%s)%s)" % (ct, em.paren(em.E(args[0])))
             return em.E(args[0])
         if ct.startswith("struct vf_seq_"):
             tag = ct[len("struct vf_seq_"):]
@@ -404,7 +566,14 @@ class LibMap:
             return None
         if ct.startswith("struct vf_pair_"):
             if len(args) == 2:
-                return "((%s){%s, %s})" % (ct, em.E(args[0]), em.E(args[1]))
+                items = []
+                for a, fct in zip(args, em.tm.pair_insts[ct[len("struct vf_pair_"):]]):
+                    e = em.E(a)
+                    if fct == "vf_str" and self.mapped(em, a) in ("char*", "const char*"):
+                        # converting pair constructor: std::string built from a C string inside std::pair
+                        e = self.str_fn(em, "vf_str_from_cstr", "vf_str", ["char*"], [e])
+                    items.append(e)
+                return "((%s){%s})" % (ct, ", ".join(items))
             if len(args) == 1 and self.mapped(em, args[0]) == ct:
                 return em.E(args[0])
             if not args:
@@ -440,8 +609,10 @@ class LibMap:
     def to_vf_fn(self, em, a):
         core = skip(a)
         if core.get("kind") == "LambdaExpr":
-            return self.lambda_expr(em, core)
+            return em.lift_lambda(core, heap=True)  # stored in a std::function: captures must outlive the block
         act = self.mapped(em, a)
+        if act == "struct vf_fn":
+            return em.E(a)  # closure variable
         if act == "vf_fnptr":
             return "((struct vf_fn){(vf_fnptr)%s, 0})" % em.E(a)
         return None
@@ -465,6 +636,32 @@ class LibMap:
         out = [ind + "{"]
         i2 = ind + "  "
         lv_t = parse(qt(loopvar))
+        il = skip(rinit)
+        if il.get("kind") == "CXXStdInitializerListExpr" and loopvar.get("kind") == "VarDecl":
+            # for (T x : {e0, e1, ...}): a local constant array and an index loop whose bound is the number of items
+            lst = il
+            while lst.get("kind") != "InitListExpr" and lst.get("inner"):
+                lst = lst["inner"][0]
+            if lst.get("kind") != "InitListExpr":
+                raise Unsupported("range-for over an initializer list that is not a braced list")
+            items = [em.E(c) for c in lst.get("inner", [])]
+            ect = em.tm.c(strip_ref(lv_t))
+            aname, iname = "__a%d" % k, "__i%d" % k
+            out.append("%s%s %s[%d] = {%s};" % (i2, ect, aname, len(items), ", ".join(items)))
+            m = em.loop_macro()
+            out.append("%sfor (size_t %s = 0; %s < %d; %s++)" % (i2, iname, iname, len(items), iname))
+            out.append(i2 + "  " + m)
+            out.append(i2 + "{")
+            if lv_t.kind in ("ref", "rref"):
+                name = em.decl_local(loopvar, True)
+                out.append("%s  %s* %s = &%s[%s];" % (i2, ect, name, aname, iname))
+            else:
+                name = em.decl_local(loopvar, False)
+                out.append("%s  %s %s = %s[%s];" % (i2, ect, name, aname, iname))
+            out += em.body(body, i2 + "  ")
+            out.append(i2 + "}")
+            out.append(ind + "}")
+            return out
         if rct.startswith("struct vf_seq_"):
             tag = rct[len("struct vf_seq_"):]
             ect = em.tm.seq_insts[tag]
@@ -505,6 +702,29 @@ class LibMap:
                 name = em.decl_local(loopvar, False)
                 lct = em.tm.c(lv_t)
                 out.append("%s  %s %s = %s;" % (i2, lct, name, elem))
+            out += em.body(body, i2 + "  ")
+            out.append(i2 + "}")
+            out.append(ind + "}")
+            return out
+        if rct.startswith("struct vf_ilist_"):
+            # boost::intrusive::list: index loop over the array of element pointers (the body must not relink
+            # elements of the list it iterates over, as in C++)
+            tag = rct[len("struct vf_ilist_"):]
+            ect = em.tm.ilist_insts[tag][0]
+            rname = "__r%d" % k
+            iname = "__i%d" % k
+            pre, e = em.with_pre(lambda: em.addr_of(rinit))
+            out += [i2 + p for p in pre]
+            out.append("%s%s* %s = %s;" % (i2, rct, rname, e))
+            out += em.exc_check(rinit, i2)
+            m = em.loop_macro()
+            out.append("%sfor (size_t %s = 0; %s < %s->n; %s++)" % (i2, iname, iname, rname, iname))
+            out.append(i2 + "  " + m)
+            out.append(i2 + "{")
+            if lv_t.kind not in ("ref", "rref"):
+                raise Unsupported("range-for by value over an intrusive list")
+            name = em.decl_local(loopvar, True)
+            out.append("%s  %s* %s = %s->d[%s];" % (i2, ect, name, rname, iname))
             out += em.body(body, i2 + "  ")
             out.append(i2 + "}")
             out.append(ind + "}")
